@@ -29,6 +29,7 @@ type StrV struct {
 	Opaque bool
 	Note   string
 	MinLen int // opaque strings: a lower bound on the length (1 = known to be non-empty)
+	Ref    Value // opaque text of a network address: the *net.UDPAddr / *net.TCPAddr it was formatted from
 }
 
 type PtrV struct {
